@@ -41,7 +41,10 @@ class PropagatePositions:
 
             res_meta = res.meta
 
+            # Look up both ends before writing anything: ``res`` may itself be one of the children
+            # (an inlined ``?rule``), and filling in its start must not make it look non-empty below.
             first_meta = self._pp_get_meta(children)
+            last_meta = self._pp_get_meta(reversed(children))
             if first_meta is not None:
                 if not hasattr(res_meta, 'line'):
                     # meta was already set, probably because the rule has been inlined (e.g. `?rule`)
@@ -54,7 +57,6 @@ class PropagatePositions:
                 res_meta.container_column = getattr(first_meta, 'container_column', first_meta.column)
                 res_meta.container_start_pos = getattr(first_meta, 'container_start_pos', first_meta.start_pos)
 
-            last_meta = self._pp_get_meta(reversed(children))
             if last_meta is not None:
                 if not hasattr(res_meta, 'end_line'):
                     res_meta.end_line = getattr(last_meta, 'container_end_line', last_meta.end_line)
